@@ -219,6 +219,19 @@ func init() {
 						}
 					}
 				}
+				// metrics around the exact fit: counters whose names run through a range of lengths, so that one of them is
+				// charged exactly what a packet has room for ("the metric that does not fit starts the next packet" - one
+				// that fits exactly is sent, alone), reported between small ones
+				if free := int(st.FreeBytes); free <= 1600 && ci%2 == 1 {
+					small := rep.AllocateCounter("s", nil)
+					for n := free - 115; n <= free-4; n++ {
+						if n < 1 {
+							continue
+						}
+						small.ReportCount(1)
+						rep.AllocateCounter(strings.Repeat("e", n), nil).ReportCount(math.MaxInt64)
+					}
+				}
 				nrep = 40 + rng.Intn(160)
 				if thorough && ci%40 == 39 {
 					nrep = 5000
